@@ -4,6 +4,7 @@ import MosnVerif.Lemmas.FilterInst
 import MosnVerif.Lemmas.FilterRegs
 import MosnVerif.Lemmas.FilterFinish
 import MosnVerif.Lemmas.Downstream.Backoff9  -- (proxy10 section at the end of the file)
+import MosnVerif.Lemmas.Downstream.TermInSetup10
 /-!
 # C14 — stream filters run in order, and a denied request is never forwarded (property theorems only)
 
@@ -647,5 +648,39 @@ example : ((fun (s : S) => (s.trace, s.cleaned, s.upActive))
     (run { retryOn := true, numRetries := 2 } (init 0 0)
       (List.replicate 12 .work ++ [.upReset 0 .StreamConnectionFailed, .work, .terminate 403, .connClose, .work]))) =
     ([.un 0, .uh 0 true, .log 504 0x2000], true, 0) := by decide
+
+/-- **deny_inside_retry_setup_not_forwarded** (the tester's lead; defect reproduced on the real code and fixed by 4e7d4a7f0).
+The worker has decided to retry (`retryState.retry` answered `ShouldRetry`) and is inside `setupRetry`; an asynchronous
+`TerminateStream` of a receiver-filter handler lands THERE — at the worker's yield site after the mark, or after the swing of
+`upstreamResponseReceived`.  Both calls are the regenerated step programs (`Gen.ProxyBackoff.setupRetry` with its two
+interleaving points, `Gen.ProxyTerminate.terminateStream`).  After the swing the call is accepted whenever no response headers
+are stored (the slot was just freed); after the mark whenever the slot is free (retry decided on an upstream reset).  A local
+reply is then pending when the regenerated `processError` runs, and it ABANDONS the retry: it does not hand back the phase
+`Retry` — the only phase besides the first `receiveHeaders` in which an attempt is created —, clears the mark, detaches the
+given-up request.  The denied request is not forwarded. -/
+theorem deny_inside_retry_setup_not_forwarded (c : Cfg) (s : S) (eos e : Bool) (code : Nat) (he : s.globalExpired = false)
+    (hd : s.downReset = false) (hu : s.up.isSome = true) (hc : s.cleaned = false) (hr : s.resp.isSome = false) :
+    (let x := (Gen.ProxyBackoff.setupRetry (srOps c) id (termCall c code) eos s).1
+     x.direct = true ∧ (restOfPhase c x e).phase ≠ .Retry ∧ (restOfPhase c x e).setupRetry = false) ∧
+    (s.urr = false →
+     let x := (Gen.ProxyBackoff.setupRetry (srOps c) (termCall c code) id eos s).1
+     x.direct = true ∧ (restOfPhase c x e).phase ≠ .Retry ∧ (restOfPhase c x e).setupRetry = false) :=
+  terminate_inside_setup_abandons_retry c s eos e code he hd hu hc hr
+
+/-- the state in which the worker handles the reset of attempt 0 -/
+def exSetupCfg : Cfg := { retryOn := true, numRetries := 2 }
+def exSetupState : S := run exSetupCfg (init 0 0) (List.replicate 12 .work ++ [.upReset 0 .StreamConnectionFailed])
+
+/-- non-vacuity: that state satisfies the hypotheses; TerminateStream(403) at either site is accepted and the worker goes on to
+the response pass (UpFilter) with the reply, not to the Retry phase -/
+example :
+    (!exSetupState.globalExpired && !exSetupState.downReset && exSetupState.up.isSome && !exSetupState.cleaned &&
+      !exSetupState.resp.isSome && !exSetupState.urr) = true ∧
+    ((fun (x : S) => (x.phase, x.direct, x.respCode, x.setupRetry))
+      (restOfPhase exSetupCfg (Gen.ProxyBackoff.setupRetry (srOps exSetupCfg) id (termCall exSetupCfg 403) true exSetupState).1 true)) =
+      (.UpFilter, false, 403, false) ∧
+    ((fun (x : S) => (x.phase, x.direct, x.respCode, x.setupRetry))
+      (restOfPhase exSetupCfg (Gen.ProxyBackoff.setupRetry (srOps exSetupCfg) (termCall exSetupCfg 403) id true exSetupState).1 true)) =
+      (.UpFilter, false, 403, false) := by decide
 
 end MosnVerif.Props.C14
